@@ -40,6 +40,10 @@ const (
 	clProp    = "a null or ill-typed value is replaced by null at an admissible nullable ancestor or by data:null"
 	clErrPath = "every replacement is reported by an error whose path is the response path of the offending position"
 	clProject = "well-typed subgraph data is rendered as exactly its projection, without errors"
+	// an error path is "the response path of" some position: whatever else it is,
+	// it must at least walk the selected response shape (keys under objects,
+	// indices under lists, nothing below a leaf)
+	clErrShape = "every error path is a path of the selected response shape"
 )
 
 type verdict struct {
@@ -493,6 +497,15 @@ func judge(tree *tnode, payload map[string]any, out []byte, structuralOnly bool)
 		return j
 	}
 
+	// (a0) every error path walks the selected shape (extra errors are allowed,
+	// paths that cannot be response paths are not)
+	for _, ep := range errPaths {
+		if problem := pathShapeProblem(tree, payload, ep); problem != "" {
+			j.fail(clErrShape, problem, "error path %s is not a path of the response shape (%s); payload %s; response %s", pathString(ep), problem, clip(string(mustJSON(payload)), 300), clip(string(out), 400))
+			break
+		}
+	}
+
 	// (a) type safety of the output alone
 	ts := &typeSafety{j: j}
 	ts.check(tree, data, nil, true)
@@ -524,6 +537,62 @@ func judge(tree *tnode, payload map[string]any, out []byte, structuralOnly bool)
 		j.fail(clProject, "errors reported for well-typed data", "payload %s is well-typed but the response has errors: %s", mustJSON(payload), clip(string(out), 300))
 	}
 	return j
+}
+
+// pathShapeProblem walks an error path over the type tree (and the payload for
+// list lengths); "" when the path denotes a position of the response shape.
+// A trailing "__typename" is accepted under every object.
+func pathShapeProblem(n *tnode, v any, p []any) string {
+	for i, seg := range p {
+		switch n.kind {
+		case kLeaf:
+			return "segment below a leaf"
+		case kList:
+			idx, ok := seg.(int)
+			if !ok {
+				return "key segment under a list"
+			}
+			n = n.item
+			if l, isList := v.([]any); isList {
+				if idx >= len(l) {
+					return "list index beyond the subgraph's list"
+				}
+				v = l[idx]
+			} else {
+				v = nil
+			}
+		case kObject:
+			key, ok := seg.(string)
+			if !ok {
+				return "index segment under an object"
+			}
+			var fld *tfield
+			for k := range n.fields {
+				if n.fields[k].key == key {
+					fld = &n.fields[k]
+				}
+			}
+			if fld == nil {
+				if key == "__typename" && i == len(p)-1 {
+					return ""
+				}
+				return "key segment that is not selected under its object"
+			}
+			if fld.static != "" || fld.node == nil {
+				if i != len(p)-1 {
+					return "segment below a leaf"
+				}
+				return ""
+			}
+			n = fld.node
+			if m, isObj := v.(map[string]any); isObj {
+				v = m[key]
+			} else {
+				v = nil
+			}
+		}
+	}
+	return ""
 }
 
 // typeSafety checks the rendered data against the type tree, without the payload.
